@@ -1,5 +1,5 @@
 CONSTANTS K = 4
-  Families = {"MK2", "MD2"}
+  Families = {"MK2", "MD2", "MKb2"}
   Emit = TRUE
 INIT Init
 NEXT Next
